@@ -101,7 +101,7 @@ REGISTRY.update({
     "C01": dict(**_p(RUN_FILES + ["Proofs/C01Aux.v", "Proofs/C01Proofs.v"], ["Props/C01.v"], ["Divide", "Phases"]),
                 theorems=["C01_step_holds", "C01_run_holds", "C01_zdist_holds"],
                 corr=ECON_OBS + INIT_OBS, corr_select=_select_eventfree,
-                monitors=[M.mon_c01], select=_select_eventfree),
+                monitors=[M.mon_c01], select=_select_eventfree, extra=X.extra_c01),
     "C02": dict(**_p(["Spec/ArioSpec.v", "Spec/StatementsSpec.v", "Proofs/C02Proofs.v"], ["Props/C02.v"], ["Phases", "Consts"]),
                 theorems=["C02_refines_holds", "C02_orders_holds", "C02_compose_holds"],
                 corr=ECON_OBS,
@@ -209,7 +209,7 @@ def evaluate(prop, spec, seed, tier, log):
     for ob in sorted(want):
         vs = by_ob.get(ob, [])
         bad0 = [(t, c, d) for t, c, d in vs if c != 0]
-        bad = [(t, c, d) for t, c, d in bad0 if not (c in (1, 3) and is_tie(t))]
+        bad = [(t, c, d) for t, c, d in bad0 if not (c in (1, 2, 3) and is_tie(t))]
         n_ties += len(bad0) - len(bad)
         corr_summary[ob] = dict(cases=len(vs), disagreements=len(bad), rounding_ties=len(bad0) - len(bad))
         name = f"corr:{ob}"
